@@ -113,20 +113,27 @@ func atOnceUnits(id string) []core.Unit {
 					vsched.FamilyAffinity, vsched.PostPoints, vsched.GlobalPoints = false, false, false
 					vsched.PoolPoison = oldPoison
 				}()
+				// the second caller performs its call twice in a row: with one switch that gives three calls that
+				// overlap in time (A interrupted; B's first and second call; A resumed)
 				var want string
 				if !guard(r, lower(id)+".panic", oa.name+" / "+ob.name, "executed alone", func() {
-					want = "[0]" + oa.f(c, ctx.Seed, 0) + "[1]" + ob.f(c, ctx.Seed, 1)
+					b := ob.f(c, ctx.Seed, 1)
+					want = "[0]" + oa.f(c, ctx.Seed, 0) + "[1]" + b + "[1 again]" + b
 				}) {
 					return
 				}
 				body := func() string {
-					outs := make([]string, 2)
+					outs := make([]string, 3)
 					var wg vsched.WaitGroup
 					wg.Add(2)
 					vsched.Go2(func(_, _ int) { defer wg.Done(); outs[0] = oa.f(c, ctx.Seed, 0) }, 0, 0)
-					vsched.Go2(func(_, _ int) { defer wg.Done(); outs[1] = ob.f(c, ctx.Seed, 1) }, 0, 0)
+					vsched.Go2(func(_, _ int) {
+						defer wg.Done()
+						outs[1] = ob.f(c, ctx.Seed, 1)
+						outs[2] = ob.f(c, ctx.Seed, 1)
+					}, 0, 0)
 					wg.Wait()
-					return "[0]" + outs[0] + "[1]" + outs[1]
+					return "[0]" + outs[0] + "[1]" + outs[1] + "[1 again]" + outs[2]
 				}
 				st := core.Explore(r, core.SchedSpec{Name: name, API: oa.name + " || " + ob.name, Check: lower(id) + ".at_once", Body: body, Expect: want, Mode: "bounded", Opt: callerSwitchOpt(ctx, 12*time.Second)})
 				r.Nontrivial += int64(st.Complete)
@@ -540,6 +547,8 @@ func init() {
 			}
 			us = append(us, atOnceUnits(id)...)
 			us = append(us, workersUnits(id)...)
+			us = append(us, burstUnits(id)...)
+			us = append(us, longShortUnits(id)...)
 			return append(us, fuUnits(id)...)
 		}
 	}
@@ -660,4 +669,153 @@ func workersUnits(id string) []core.Unit {
 		}
 	}
 	return us
+}
+
+// ---------- many callers at once (free-running) ----------
+
+// burstUnits: 24 real goroutines inside the same operation at once, three rounds; every output equals the
+// output of the call executed alone. Not an exhaustive search (the schedules are the machine's), it covers
+// what needs three or more overlapping callers, which the single-switch searches above cannot produce.
+func burstUnits(id string) []core.Unit {
+	ops := atOnceOps(id)
+	if len(ops) == 0 || id == "C12" {
+		return nil
+	}
+	return []core.Unit{{Name: "24 callers inside the same operation at once (free-running, 3 rounds per operation)", Run: func(ctx *core.Ctx, r *core.Result) {
+		c := conf()
+		for _, op := range ops {
+			var alone [2]string
+			if !guard(r, lower(id)+".panic", op.name, "executed alone", func() { alone[0], alone[1] = op.f(c, ctx.Seed, 0), op.f(c, ctx.Seed, 1) }) {
+				continue
+			}
+			for round := 0; round < 3; round++ {
+				outs := make([]string, 24)
+				if !timed(r, lower(id)+".panic", op.name, "24 concurrent callers", func() {
+					var wg sync.WaitGroup
+					for k := range outs {
+						wg.Add(1)
+						go func(k int) { defer wg.Done(); outs[k] = op.f(c, ctx.Seed, k%2) }(k)
+					}
+					wg.Wait()
+				}) {
+					break
+				}
+				r.Evals++
+				r.Nontrivial++
+				bad := false
+				for k := range outs {
+					if outs[k] != alone[k%2] {
+						vio(r, lower(id)+".at_once", op.name, fmt.Sprintf("24 concurrent callers (free-running), round %d, caller %d", round, k), "the output of the call executed alone: "+clipS(alone[k%2]), clipS(outs[k]))
+						bad = true
+						break
+					}
+				}
+				if bad {
+					break
+				}
+			}
+		}
+	}}}
+}
+
+// ---------- one long call overlapped by many short ones (free-running) ----------
+
+// longShortUnits: a batch helper working on 2^15 elements while two other goroutines keep calling the same
+// helper on small batches of other elements; the long call's result must equal the result of the same call
+// executed alone (three rounds). Scratch memory that a call keeps using after another call could take it
+// over shows here even when no scheduling point lies inside the window.
+func longShortUnits(id string) []core.Unit {
+	if id != "C11" && id != "C19" && id != "C07" && id != "C15" {
+		return nil
+	}
+	return []core.Unit{{Name: "one long batch call overlapped by many short ones (free-running)", Run: func(ctx *core.Ctx, r *core.Result) {
+		c := conf()
+		const big = 1 << 15
+		mkEls := func(n, off int) ([]banderwagon.Element, []*banderwagon.Element) {
+			store := make([]banderwagon.Element, n)
+			ptrs := make([]*banderwagon.Element, n)
+			for i := range store {
+				store[i] = reprOf(c.SRS[(i*3+off)%256], 1+i%3)
+				ptrs[i] = &store[i]
+			}
+			return store, ptrs
+		}
+		type job struct {
+			name string
+			run  func(n, off int) string
+		}
+		jobs := []job{
+			{"banderwagon.BatchMapToScalarField", func(n, off int) string {
+				_, ptrs := mkEls(n, off)
+				out := make([]fr.Element, n)
+				res := make([]*fr.Element, n)
+				for i := range res {
+					res[i] = &out[i]
+				}
+				err := banderwagon.BatchMapToScalarField(res, ptrs)
+				return frsDigest(out) + fmt.Sprint(err)
+			}},
+			{"banderwagon.ElementsToBytes", func(n, off int) string {
+				_, ptrs := mkEls(n, off)
+				h := sha256.New()
+				for _, b := range banderwagon.ElementsToBytes(ptrs...) {
+					h.Write(b[:])
+				}
+				return fmt.Sprintf("%x", h.Sum(nil))
+			}},
+			{"banderwagon.BatchNormalize", func(n, off int) string {
+				store, ptrs := mkEls(n, off)
+				err := banderwagon.BatchNormalize(ptrs)
+				return elsDigest(store[:3]) + elsDigest(store[n-3:]) + fmt.Sprint(err)
+			}},
+			{"fr.BatchInvert", func(n, off int) string {
+				v := make([]fr.Element, n)
+				for i := range v {
+					v[i] = frFromBig(bi(int64(i + 2 + off)))
+				}
+				return frsDigest(fr.BatchInvert(v))
+			}},
+		}
+		for _, j := range jobs {
+			if (id == "C15") != (j.name == "fr.BatchInvert") && id != "C19" {
+				continue
+			}
+			var alone string
+			if !guard(r, lower(id)+".panic", j.name, "executed alone", func() { alone = j.run(big, 0) }) {
+				continue
+			}
+			for round := 0; round < 3; round++ {
+				var got string
+				if !timed(r, lower(id)+".panic", j.name, "a call on 32768 elements overlapped by short calls", func() {
+					stop := make(chan struct{})
+					var wg sync.WaitGroup
+					for k := 0; k < 2; k++ {
+						wg.Add(1)
+						go func(k int) {
+							defer wg.Done()
+							for {
+								select {
+								case <-stop:
+									return
+								default:
+									j.run(64+k, 100+k)
+								}
+							}
+						}(k)
+					}
+					got = j.run(big, 0)
+					close(stop)
+					wg.Wait()
+				}) {
+					break
+				}
+				r.Evals++
+				r.Nontrivial++
+				if got != alone {
+					vio(r, lower(id)+".at_once", j.name, fmt.Sprintf("a call on %d elements while two goroutines keep calling it on 64 and 65 other elements (free-running, round %d)", big, round), "the result of the same call executed alone", "a different result")
+					break
+				}
+			}
+		}
+	}}}
 }
